@@ -218,6 +218,15 @@ def run(ctx, rep):
             if b.get('derived'):
                 rep.ok('J3', key, 'derived impl (Default = 0, in range)', asite)
                 continue
+            if b['kind'] == 'const':
+                # a named constant of the type (`U53::MAX`): its payload is a constant rustc evaluated — it must lie in the range
+                mn, mx = expect[ty][2], expect[ty][3]
+                blkst = ' '.join(b['blocks'][a['bb']]['stmts'])
+                am = re.search(rf'integer::{ty}\((const [^)]*)\)', blkst)
+                vals = [int(k_['val']) for k_ in b.get('consts', []) if am and k_.get('text') == am.group(1) and re.fullmatch(r'-?\d+', str(k_.get('val', '')))]
+                ok = bool(vals) and all(mn <= v_ <= mx for v_ in vals)
+                rep.check(ok, 'J3', key, f'constant payload {vals[0] if vals else None} within [{mn}, {mx}] (evaluated by rustc)', f"{b['id']}: a constant of type {ty} is built from `{am.group(1) if am else blkst[:60]}` = {vals[0] if vals else 'an unevaluated operand'}, outside [{mn}, {mx}] — an out-of-range {ty} exists without passing the range test", asite)
+                continue
             m = re.fullmatch(rf'<integer::{ty} as std::convert::TryFrom<{wide}>>::try_from', b['id'])
             if m:
                 cont = [c for c in b['calls'] if c['callee'].endswith('RangeInclusive::<Idx>::contains')]
